@@ -4,6 +4,7 @@ import (
 	"fmt"
 	"math/big"
 	"sort"
+	"strconv"
 	"strings"
 	"testing"
 
@@ -78,7 +79,9 @@ func newAuthWorld() *authWorld {
 	return a
 }
 
-func (a *authWorld) counter(r, chain string) string { return "cp-" + r + "-" + chain }
+func (a *authWorld) counter(r, chain string, v int64) string {
+	return fmt.Sprintf("cp-%s-%s-v%d", r, chain, v)
+}
 
 // what the sender puts into the proof field: junk, or the TSS account's address (what a TSS client compares its
 // "proof" with - the keeper must have replaced the field by the signer before that)
@@ -100,7 +103,7 @@ func (a *authWorld) privCall(method string) (string, common.Address, []byte) {
 			out = p
 		}
 	}
-	ack := packettypes.NewAcknowledgement(1, []byte{}, "forged", a.counter("r1", "tss"), 0)
+	ack := packettypes.NewAcknowledgement(1, []byte{}, "forged", a.counter("r1", "tss", 1), 0)
 	user := a.C.Accts[auUser].Eth
 	switch method {
 	case "setSequence":
@@ -159,7 +162,23 @@ func (a *authWorld) registry() M {
 func (a *authWorld) project() M {
 	c := a.C
 	ctx := c.Ctx()
-	st := M{"reg": a.registry()}
+	reg := a.registry()
+	st := M{"reg": reg}
+	// the version each account's registration carries, read back from the registered addresses
+	ver := M{}
+	for n, e := range reg {
+		v := int64(1)
+		for _, x := range e.([]interface{}) {
+			addr := x.(M)["a"].(string)
+			if i := strings.LastIndex(addr, "-v"); i >= 0 {
+				if p, err := strconv.ParseInt(addr[i+2:], 10, 64); err == nil {
+					v = p
+				}
+			}
+		}
+		ver[n] = v
+	}
+	st["ver"] = ver
 	lat := M{}
 	for _, n := range []string{"one", "two"} {
 		cs, _ := c.App.XIBCKeeper.ClientKeeper.GetClientState(ctx, auName(n))
@@ -273,7 +292,7 @@ func driveAuth(t *testing.T, in, out string, seed int64) {
 				var names, addrs []string
 				for _, x := range st["chains"].([]interface{}) {
 					names = append(names, auName(x.(string)))
-					addrs = append(addrs, a.counter(r, x.(string)))
+					addrs = append(addrs, a.counter(r, x.(string), num(st["v"])))
 				}
 				res, msg := c.ExecProposal(clienttypes.NewRegisterRelayerProposal("t", "d", c.Accts[auAcct[r]].Acc.String(), names, addrs))
 				line["res"], line["msg"] = res, msg
